@@ -24,6 +24,9 @@ run aecaa2c C08
 run 17a059e C08
 run 9604a2d C04
 run 0d7cc73 C11
+# ca33dc1 (second half of the close() repair) needs a delete followed by a persistent fault late in close(): its minimised replay is executed against the reverted commit
+git -C /repo diff ca33dc1~1 ca33dc1 > /tmp/rev-ca33dc1.diff; for f in /verif/replays/fixed/ca33dc1/*.json; do python3 -c "import json,sys; d=json.load(open(sys.argv[1])); print(d['swarm']); print('\\n'.join(d['plan']))" $f > /tmp/rev-ca33dc1.plan; echo "=== revert ca33dc1 -> replay $f"; TAIL=1 tools/try_patch.sh /tmp/rev-ca33dc1.diff exec /tmp/rev-ca33dc1.plan -R | cut -c1-300; done
+run 673ee5d C03
 # F7 (1daf074) cannot be reverted textually any more (later commits touch the same lines): the same defect is re-introduced by hand
 cat > /tmp/m_time_seed.diff <<'EOP'
 --- a/src/util/util.cpp
